@@ -31,6 +31,9 @@ def run(ctx):
     ctx.rule('C10.e-wrappers-forward', 'the ReedSolomon{En,De}coder methods the one-shot functions use (supports, new, add, encode/decode) only forward to the default-rate codec: the pre-check of the one-shot call is the predicate the constructor fails by (clause shared with C09.c)')
     ctx.rule('C10.f-iterator-is-the-accessor', 'the result iterators the one-shot functions collect from yield exactly what the accessors of the streaming result expose (clause shared with C12.b)')
     ctx.rule('C10.g-no-state-between-calls', 'nothing survives from one one-shot call to the next: no non-table static, thread-local or other hidden input is read anywhere below the API (clause shared with C05.f)')
+    ctx.rule('C10.k-configuration-handed-over-unaltered', 'the counts and shard size against which both APIs validate indexes and sizes are the caller\'s own: a codec does not register a padded or otherwise altered count with its work object (clause shared with C06.d)')
+    from . import c06 as c06__
+    ctx.guard('C10.analysable', ctx.shared, {'C06.d-config-handover': 'C10.k-configuration-handed-over-unaltered'}, c06__.check_config_handover, ctx, ctx.facts(cfgs[0]), cfgs[0])
     ctx.rule('C10.i-same-errors', 'every error of the streaming path and the pre-checks of the one-shot functions is governed by its documented condition over the right operands, so both APIs report the same error for the same input (clause shared with C06.b)')
     ctx.rule('C10.j-same-bookkeeping', 'each add records exactly one shard at its position and counts it once, so that the streaming sequence the one-shot call runs sees the shards it was given (clause shared with C11.a)')
     from . import c06 as c06_, c11 as c11_
